@@ -14,15 +14,21 @@ if [ "$SKIP_SUITE" = "1" ]; then suite="skipped"; else
   suite=$(PYTHONPATH=$WT/src /venv/bin/python -m pytest -q -p no:cacheprovider --timeout=900 2>&1 | tail -1)
 fi
 cd /verif
+if [ "$SEED_SCRATCH" = "1" ]; then   # run the check against the scratch worktree (when /repo must not be touched, e.g. during a long run)
+  out=$(mktemp /tmp/seedout.XXXXXX)
+  VERIF_REPO=$WT VERIF_EVIDENCE_DIR=/tmp/seed_ev ./check $P $TIER > $out 2>&1; rc=$?
+fi
 git -C /repo worktree remove --force $WT
 case "$suite" in *"31 passed"*|skipped) ;; *) res "REJECTED (suite with change: $suite)"; exit 4;; esac
 if [ $d0 != 0 ] || [ $d1 = 0 ]; then res "REJECTED (demo clean rc=$d0, with change rc=$d1)"; exit 4; fi
+if [ "$SEED_SCRATCH" != "1" ]; then
 # run the check against /repo with the change applied, then undo
 git -C /repo apply $PATCH || { res "cannot apply to /repo"; exit 3; }
 out=$(mktemp /tmp/seedout.XXXXXX)
 VERIF_EVIDENCE_DIR=/tmp/seed_ev ./check $P $TIER > $out 2>&1; rc=$?
 git -C /repo checkout -- .
 if [ -n "$(git -C /repo status --porcelain)" ]; then res "WARNING: /repo not clean after undo"; fi
+fi
 detail=$(grep -m1 'violation detail' $out | cut -c1-220)
 if [ $rc = 1 ]; then res "CAUGHT ($TIER) suite=[$suite] :: $detail"; elif [ $rc = 0 ]; then res "MISSED ($TIER) suite=[$suite]"; else res "CHECK ERROR rc=$rc: $(tail -3 $out | tr '\n' ' ' | cut -c1-300)"; fi
 rm -f $out; rm -rf replays/$P
